@@ -125,6 +125,41 @@ Theorem C13_latlon_time_ratio : forall (T : Type) (O : NumOps T) dim sdim geo l 
 Proof. exact @construct_latlon_time_ratio. Qed.
 Print Assumptions C13_latlon_time_ratio.
 
+(* 9b. the same invariants hold after EVERY history of len_scale / anis / angles assignments (every number type):
+       lat-lon: dim 3(+1), spatial ratios 1, all angles 0; metric temporal: angles of planes containing time are 0;
+       list lengths dim-1 and no_of_angles dim; dim / latlon / temporal / geo_scale never change *)
+Theorem C13_state_invariant_all_histories :
+  forall (T : Type) (O : NumOps T) dim sdim latlon temporal geo ls anis angles m0 ops m,
+  construct O dim sdim latlon temporal geo ls anis angles = Some m0 -> gsteps O m0 ops = Some m ->
+  (1 <= g_dim m)%nat /\ length (g_anis m) = (g_dim m - 1)%nat /\ length (g_angles m) = no_of_angles (g_dim m) /\
+  (g_latlon m = true ->
+     g_dim m = (3 + b2n (g_temporal m))%nat /\ aget (n0 O) (g_anis m) 0 = n1 O /\ aget (n0 O) (g_anis m) 1 = n1 O /\
+     g_angles m = repeat (n0 O) (no_of_angles (g_dim m))) /\
+  (g_latlon m = false -> g_temporal m = true ->
+     forall k, (no_of_angles (g_dim m - 1) <= k)%nat -> aget (n0 O) (g_angles m) k = n0 O) /\
+  g_dim m = g_dim m0 /\ g_latlon m = latlon /\ g_temporal m = temporal /\ g_geo_scale m = g_geo_scale m0.
+Proof.
+  intros T O dim sdim latlon temporal geo ls anis angles m0 ops m Hc Hs.
+  destruct (construct_inv O _ _ _ _ _ _ _ _ _ Hc) as (Hi0 & El & Et).
+  destruct (gsteps_inv O ops m0 m Hi0 Hs) as ((H1 & H2 & H3 & H4 & H5) & E1 & E2 & E3 & E4).
+  rewrite <- El, <- Et. repeat (split; [assumption|]). assumption.
+Qed.
+Print Assumptions C13_state_invariant_all_histories.
+
+(* 9c. assigning a scalar len_scale keeps every ratio — in particular the time ratio of a lat-lon + temporal model
+       (this is the defect repaired by /repo commit b408ce8; the setter correspondence ties the model to the code) *)
+Theorem C13_len_scale_keeps_time_ratio :
+  forall (T : Type) (O : NumOps T) dim sdim latlon temporal geo ls anis angles m0 ops m l m',
+  construct O dim sdim latlon temporal geo ls anis angles = Some m0 -> gsteps O m0 ops = Some m ->
+  gstep O m (OpLen [l]) = Some m' -> g_anis m' = g_anis m /\ g_len_scale m' = l.
+Proof.
+  intros T O dim sdim latlon temporal geo ls anis angles m0 ops m l m' Hc Hs Hl.
+  destruct (construct_inv O _ _ _ _ _ _ _ _ _ Hc) as (Hi0 & _ & _).
+  destruct (gsteps_inv O ops m0 m Hi0 Hs) as (Hi & _).
+  exact (len_scale_keeps_ratios O m l m' Hi Hl).
+Qed.
+Print Assumptions C13_len_scale_keeps_time_ratio.
+
 (* 10. the time coordinate is appended and only divided / multiplied by the time scale (every number type) *)
 Theorem C13_time_appended : forall (T : Type) (O : NumOps T) r ts ts' a b c t,
   latlon2pos O r true ts [a; b; t] = latlon2pos O r false ts' [a; b] ++ [ndiv O t ts] /\
